@@ -4,8 +4,8 @@ export GOFLAGS=-mod=mod GOPROXY=off GOSUMDB=off GOTOOLCHAIN=local
 cd /verif/harness && go1.26.8 test -c -tags verif -race -gcflags=all=-d=checkptr=0 -o /verif/.build/e2-dev.test ./e2 || exit 2
 D=/dev/shm/e2dev; mkdir -p $D; cd $D; rm -rf race.* out.json scratch
 cat > job.json <<EOJ
-{"property":"${PROP:-C32}","profile":"default","tier":"quick","seed":${2:-1},"first":${3:-0},"stride":1,"max_runs":$1,"budget_s":120,"out":"$D/out.json","scratch":"$D/scratch","shrink_budget":0,"log_dump":true,"known":${KNOWN:-[]}}
+{"property":"${PROP:-C32}","profile":"default","tier":"quick","seed":${2:-1},"first":${3:-0},"stride":${STRIDE:-1},"max_runs":$1,"budget_s":120,"out":"$D/out.json","scratch":"$D/scratch","shrink_budget":0,"log_dump":true,"known":${KNOWN:-[]}}
 EOJ
-env GOMAXPROCS=1 GODEBUG=asyncpreemptoff=1 GORACE="log_path=$D/race halt_on_error=0 exitcode=0" VERIF_RACE_LOG=$D/race VERIF_JOB=$D/job.json /verif/.build/e2-dev.test -test.run '^TestWorker$' -test.timeout 300s > $D/stdout.txt 2>&1
+env GOMAXPROCS=1 GODEBUG=asyncpreemptoff=1 GORACE="log_path=$D/race halt_on_error=0 exitcode=0" VERIF_RACE_LOG=$D/race VERIF_JOB=$D/job.json /verif/.build/e2-dev.test -test.run '^TestWorker$' -test.timeout ${TMO:-300s} > $D/stdout.txt 2>&1
 echo "exit=$? lines=$(wc -l < $D/stdout.txt)"
 python3 /verif/harness/e2/devsum.py "$DETAIL" "$TAIL"
